@@ -561,6 +561,9 @@ def _fetch_loops(check: Check):
       n += 1
       breaks = [x for x in ast.walk(loop) if isinstance(x, ast.Break)]
       ok = None
+      if not breaks and isinstance(loop, ast.While) and isinstance(loop.test, ast.Constant) and loop.test.value is True and not any(
+          isinstance(x, ast.Return) for x in ast.walk(loop)):
+        ok = False   # while True without any way out: the None that ends the result set is used as a row
       for b in breaks:
         gs = [(t, pol) for t, pol in guards_of(ff, b, implied=False) if isinstance(t, ast.Compare) and txt(t.left) == d.name and isinstance(
             t.ops[0], ast.Is) and isinstance(t.comparators[0], ast.Constant) and t.comparators[0].value is None]
